@@ -11,7 +11,7 @@ META = {
     "note": "Universe: repository fixtures x 3 configurations + 2 input variants + generated micro designs. Known findings of the unchanged tree are listed in known_findings.json by (rule, file, configuration, variant).",
 }
 
-DEDUCTIVE = []
+DEDUCTIVE = ['vsg.vhdlFile.extract.tokens.New.extract_tokens', 'vsg.vhdlFile.utils.count_carriage_returns', 'vsg.rules.token_case.token_case._fix_violation', 'vsg.rules.whitespace_between_tokens.Rule._fix_violation', 'vsg.rules.token_indent.token_indent._fix_violation']
 
 
 def run():
